@@ -111,6 +111,7 @@ let handle (fields : string list) : string =
   | ["x25"; h] -> string_of_n (x25_sum (bytes_of_hex h))
   | ["crcspec"; h] -> string_of_n (mcrf4xx (bytes_of_hex h))
   | ["sha"; h] -> hex_of_bytes (sha256 (bytes_of_hex h))
+  | ["crc"; gs] -> show_res (fun c -> string_of_n c.c_crc) (initialize (parse_gostruct gs))
   | ["init"; gs] -> show_res show_codec (initialize (parse_gostruct gs))
   | ["def"; dname; id; gs] ->
     (match initialize (parse_gostruct gs) with
@@ -159,6 +160,15 @@ let handle (fields : string list) : string =
         st := st'; show_res hex_of_bytes r
       | _ -> failwith "bad swrite op") (split ' ' ops) in
     String.concat ";" outs
+  | ["lookup"; dname; id] ->
+    (match get_dialect dname with
+     | None -> "nodialect"
+     | Some d -> (match dlookup d (n_of_string id) with Some c -> "some " ^ string_of_n c.c_crc | None -> "none"))
+  | ["dinit"; msgs] ->
+    let ms = List.map (fun m -> match split '=' m with
+                                | [id; gs] -> (n_of_string id, parse_gostruct gs)
+                                | _ -> failwith "bad dinit") (split ' ' msgs) in
+    (match dialect_init ms with Ok _ -> "ok" | Err _ -> "err" | Panic -> "panic")
   | ["tsmono"; ops] ->
     let ts = List.filter_map (fun op -> match split '@' op with
                                 | [_; now] -> if now = "0" then None else Some (n_of_string now)
